@@ -31,7 +31,9 @@ def cases(tier, seed):
     # basics + constructors
     for (n, t), b, inter in itertools.product(SHAPES, BATCHES, [True, False]):
         for rep in range(1 if tier == "quick" else 4):
-            yield {"kind": "basics", "n": n, "t": t, "batch": b, "interleaved": inter, "rep": rnd.choice(["dense", "linop", "kron"]), "seed": rnd.randrange(10**6)}
+            yield {"kind": "basics", "n": n, "t": t, "batch": b, "interleaved": inter, "rep": rnd.choice(["dense", "linop", "kron", "blockdiag"]), "seed": rnd.randrange(10**6)}
+    for (n, t), b, inter in itertools.product([(3, 3), (2, 2), (4, 3), (2, 3)], [[], [2]], [True, False]):
+        yield {"kind": "basics", "n": n, "t": t, "batch": b, "interleaved": inter, "rep": "blockdiag", "seed": rnd.randrange(10**6)}
     for (n, t), b in itertools.product(SHAPES, [[], [2], [3, 2]]):
         for crep in ("dense", "diag", "root", "mixed"):
             for td in range(-(len(b) + 1), len(b) + 1):
@@ -104,7 +106,14 @@ def _make(case, g):
     n, t, b = case["n"], case["t"], case["batch"]
     mean = util.randn(g, *b, n, t)
     rep = case.get("rep", "dense")
-    if rep == "kron":
+    if rep == "blockdiag":
+        # independent blocks: interleaved storage = one t x t block per point, otherwise one n x n block per task
+        from linear_operator.operators import BlockDiagLinearOperator
+
+        nblk, sz = (n, t) if case["interleaved"] else (t, n)
+        cov_obj = BlockDiagLinearOperator(_spd(g, *b, nblk, sz))
+        cov = cov_obj.to_dense()
+    elif rep == "kron":
         A, B = (_spd(g, *b, n), _spd(g, *b, t)) if case["interleaved"] else (_spd(g, *b, t), _spd(g, *b, n))
         cov_obj = KroneckerProductLinearOperator(A, B)
         cov = cov_obj.to_dense()
